@@ -866,7 +866,7 @@ def determinism():
     outdir = os.path.join(BUILD, "out", "determinism")
     shutil.rmtree(outdir, ignore_errors=True)
     cases = [("asan", "e3", ["--prop", "C01"]), ("asan", "e3", ["--prop", "C14"]), ("asan", "e3", ["--prop", "C15"]),
-             ("asan", "e2", ["--prop", "C09"]), ("asan", "e2", ["--prop", "C08"]),
+             ("asan", "e2", ["--prop", "C09"]), ("asan", "e2", ["--prop", "C08"]), ("asan", "e2", ["--prop", "C13"]),
              ("asan", "e1", ["--mode", "a"]), ("asan", "e1", ["--mode", "a", "--fault", "ta"]),
              ("asan", "e1", ["--mode", "a", "--fault", "stall"]), ("asan", "e1", ["--mode", "a", "--fault", "starve"]),
              ("asan", "e1", ["--mode", "b"]), ("tsan", "e1", ["--mode", "a"]), ("tsan", "e1", ["--mode", "b"]),
